@@ -34,13 +34,16 @@ CONSTANTS Replicas,      \* set of replica ids
           MaxRot,        \* bound: log rotations
           MaxStall,      \* bound: replicas that stop reading for good
           RotateFollows, \* TRUE = intended design; FALSE = the observer stays on the first log object (sensitivity)
-          WholeBatches   \* TRUE = intended design; FALSE = chunks may end inside a batch (sensitivity)
+          WholeBatches,  \* TRUE = intended design; FALSE = chunks may end inside a batch (sensitivity)
+          PollRereads    \* TRUE = intended design: the catch-up poll of a stream looks up the CURRENT log object at every round;
+                         \* FALSE = it keeps the log object it saw when the stream was opened (sensitivity)
 
 VARIABLES plog,      \* primary log: Seq of sequence numbers
           wr,        \* 0 = no primary write in progress, n > 0 = a write of n entries was invoked and has not returned
           stop,      \* the primary accepts no more writes (quiescence of C14)
           gen, obs,  \* current log object / log object the primary observes and polls
-          sess,      \* per replica: [conn, start, lastAck, pushed]   (primary side: ReplicaSession)
+          sess,      \* per replica: [conn, start, lastAck, pushed, h]   (primary side: ReplicaSession; h = the log object the
+                     \* stream's catch-up poll reads, looked up again at every poll in the intended design)
           net,       \* per replica: FIFO of messages <<lo, hi>> in flight on its stream
           inmsg,     \* per replica: message handed to the applier (<<>> = none)
           expected,  \* per replica: next expected sequence number   (WALBatchApplier.expectedNextSeq)
@@ -76,7 +79,7 @@ Room(r) == Len(net[r]) < MaxNet
 Live(r) == sess[r].conn /\ obs = gen                           \* the session is served by a sender that sees the log
 
 Init == /\ plog = <<>> /\ wr = 0 /\ stop = FALSE /\ gen = 0 /\ obs = 0
-        /\ sess = [r \in Replicas |-> [conn |-> FALSE, start |-> 1, lastAck |-> 0, pushed |-> 0]]
+        /\ sess = [r \in Replicas |-> [conn |-> FALSE, start |-> 1, lastAck |-> 0, pushed |-> 0, h |-> 0]]
         /\ net = [r \in Replicas |-> <<>>] /\ inmsg = [r \in Replicas |-> <<>>]
         /\ expected = [r \in Replicas |-> 1] /\ applied = [r \in Replicas |-> <<>>]
         /\ reported = [r \in Replicas |-> 0] /\ rstate = [r \in Replicas |-> "down"]
@@ -107,7 +110,11 @@ PushSend(r) == /\ Live(r) /\ Room(r) /\ sess[r].pushed < Len(plog)
                   /\ Send(r, <<lo, hi>>)
                   /\ sess' = [sess EXCEPT ![r].pushed = hi]
                /\ UNCHANGED <<pvars, inmsg, expected, applied, reported, rstate, resend, initp, stall, faults, downs>>
+\* the catch-up poll: look up the log object (the current one, or - sensitivity - the one of the stream's start), ask it
+\* whether there is anything behind the acknowledged position; a log object that has been rotated away has nothing new.
+\* (With PollRereads the handle is not a piece of state - every round reads gen - so h stays 0 and costs no states.)
 PollSend(r) == /\ Live(r) /\ Room(r)
+               /\ (PollRereads \/ sess[r].h = gen)
                /\ \E m \in Msgs(sess[r].lastAck + 1) : Send(r, m)
                /\ UNCHANGED <<pvars, sess, inmsg, expected, applied, reported, rstate, resend, initp, stall, faults, downs>>
 InitialSend(r) == /\ Live(r) /\ Room(r) /\ initp[r]
@@ -179,7 +186,7 @@ RNotice(r) == /\ rstate[r] = "stream" /\ ~sess[r].conn
 \* (re)connect: a NEW stream from the first number the replica still needs
 Reconnect(r) == /\ rstate[r] = "down" /\ ~stall[r]
                 /\ sess' = [sess EXCEPT ![r] = [conn |-> TRUE, start |-> expected[r], lastAck |-> expected[r] - 1,
-                                                pushed |-> Len(plog)]]
+                                                pushed |-> Len(plog), h |-> IF PollRereads THEN 0 ELSE gen]]
                 /\ net' = [net EXCEPT ![r] = <<>>]
                 /\ initp' = [initp EXCEPT ![r] = TRUE] /\ resend' = [resend EXCEPT ![r] = 0]
                 /\ rstate' = [rstate EXCEPT ![r] = "stream"]
